@@ -657,8 +657,22 @@ def tables_snapshot(t):
     return out
 
 
+def class_state(t):
+    """the non-callable attributes of the class body (tables and whatever else a change may park there), as text"""
+    out = {}
+    for n, v in vars(t).items():
+        if n.startswith("__") or callable(v) or isinstance(v, (staticmethod, classmethod, property)):
+            continue
+        try:
+            out[n] = repr(v)[:400]
+        except Exception:  # noqa
+            out[n] = "<unprintable>"
+    return out
+
+
 class HistResult:
     def __init__(self):
+        self.hidden = []   # class attributes that the calls of the history wrote (auxiliary, no verdict)
         self.lines = []    # (model line, implementation output)
         self.bad = []      # dict(kind, at, owner, expected, actual, fn, what)
         self.aliases = []  # (step index, new handle, old handle)
@@ -684,6 +698,7 @@ class Session:
         self.ref, self.window = ref, window
         self.t = T()
         self.tables0 = tables_snapshot(self.t)
+        self.class0 = class_state(self.t)
         self.res = HistResult()
         self.held = self.res.held
         self.steps = self.res.steps
@@ -800,6 +815,8 @@ class Session:
     def finish(self) -> HistResult:
         if self.steps:
             self._reread(len(self.steps) - 1)
+        c1 = class_state(T())
+        self.res.hidden = sorted(n for n in set(c1) | set(self.class0) if c1.get(n) != self.class0.get(n))
         if tables_snapshot(T()) != self.tables0:
             n = len(self.steps) - 1
             self._bad("tables-changed", n, n, "the six tables as loaded", "changed", None,
@@ -1003,6 +1020,13 @@ class HistoryProbe:
             ctx.count(f"hist-fn:{fn}")
         if res.aliases:
             ctx.count(f"hist:{component}:result-is-an-object-held-before", len(res.aliases))
+        for name in res.hidden:
+            # auxiliary, never a verdict: the calls keep something on the class between calls (the inventory of C19 owns that
+            # question; here it only says where a history-dependent answer could come from)
+            if not ctx.hist.get(f"hidden-state:class-attribute-written-by-calls:{name}"):
+                ctx.notes.append(f"auxiliary: the calls of a history wrote the class attribute Trellis34.{name} (state kept between calls; "
+                                 "single-threaded histories are checked here, interleavings of threads are outside the property as stated)")
+            ctx.count(f"hidden-state:class-attribute-written-by-calls:{name}")
         self.report(component, steps, res, session.window)
         if not ctx.search_only and ctx.driver_ok:
             self.buf.setdefault(f"history.{component}", []).extend([("hs.reset", "ok")] + res.lines)
@@ -1301,6 +1325,122 @@ def scripted_histories(ctx, probe: HistoryProbe, chains, reps: int):
             probe.done("chain", s)
 
 
+# ---- error paths: a call that raises (or an unusual one that is accepted) must leave nothing behind -------------
+FOREIGN_INTS = [0, 2, -2, 5, -5, 4, -128, 127]
+FOREIGN_POINTS = [16, 17, 31, 64, 128, 255]
+FOREIGN_TRIBITS = [8, 9, 15, 16, 56, 63, 64, 255]
+
+
+def bad_argument_tokens(ref: Ref, fn: str, kind: str, ch, rng, full=False):
+    """(label, content token) of arguments of `fn` that are refused — wrong length, a value outside the table at the first /
+    a middle / the last position (after valid, non-zero elements), a stream or point sequence that becomes unreachable at a given
+    position — or that are unusual but accepted (longer, shorter, empty where the function does not check)"""
+    tok = arg_token(ch, fn, kind)
+    val = dec_val(kind, tok)
+    n = len(val)
+    out = []
+
+    def add(label, v):
+        t = enc_val(kind, v)
+        if t != tok:
+            out.append((label, t))
+
+    # lengths
+    add("len-1", val[: n - 1])
+    add("len-2", val[: n - 2])
+    add("len+1", val + val[:1] if kind != "o" else val + val[:1])
+    add("empty", val[:0])
+    add("single", val[:1])
+    if kind in ("b", "l"):
+        add("len+8", val + val[:8])
+        add("half", val[: n // 2])
+    # values outside the tables
+    if kind in ("i", "n") and n:
+        foreign = FOREIGN_INTS if kind == "i" else (FOREIGN_TRIBITS if VALID_ARG[fn] == "TS" else FOREIGN_POINTS)
+        positions = [0, 1, n // 2, n - 2, n - 1]
+        for pos in (positions if full else rng.sample(positions, 3)):
+            if 0 <= pos < n:
+                for x in (foreign if full else rng.sample(foreign, 2)):
+                    w = list(val)
+                    w[pos] = x
+                    add(f"value{x}@{pos}", w)
+    # a point the encoder cannot emit at position p (the decoder refuses half-way through its loop)
+    if fn in ("decode", "decode_bytes", "points_to_tribits"):
+        for p_ in ([0, 1, 2, 24, 47, 48] if full else rng.sample([0, 1, 2, 24, 47, 48], 3)):
+            pts = list(ch["P"])
+            st = 0 if p_ == 0 else ch["TS"][p_ - 1]
+            cands = [q for q in range(16) if q not in ref.row(st)]
+            if not cands:
+                continue
+            pts[p_] = rng.choice(cands)
+            if fn == "points_to_tribits":
+                add(f"unreachable@{p_}", pts)
+            else:
+                strm = ref.stream_of_points(pts)
+                if strm is not None:
+                    add(f"unreachable@{p_}", strm)
+    return out
+
+
+def property_steps(s, ch):
+    """the property and every stage function, as steps whose answers the session compares with the table-only reference"""
+    b = s.new("b", "ba", ch["B"])
+    st = s.call("encode", b)
+    s.call("decode", st)
+    s.call("decode_bytes", st)
+    s.call("decode", s.call("encode", s.new("o", "by", ch["O"])))
+    ts = s.call("bits_to_tribits", b)
+    pts = s.call("tribits_to_points", ts)
+    dd = s.call("points_to_dibits", pts)
+    di = s.call("interleave", dd)
+    s.call("dibits_to_bits", di)
+    if s.held[st]["obj"] is not None:
+        di2 = s.call("bits_to_dibits", st)
+        dd2 = s.call("deinterleave", di2)
+        p2 = s.call("dibits_to_points", dd2)
+        t2 = s.call("points_to_tribits", p2)
+        s.call("tribits_to_bits", t2)
+
+
+def error_path_histories(ctx, probe: HistoryProbe, chains, reps: int):
+    """for every callable and every refused / unusual argument: a new module state whose FIRST call is that one, then the
+    property and all stage functions on two blocks, the call again, the same callable on a valid argument, the property again"""
+    rng = ctx.rng
+    full = ctx.thorough()
+    for rep in range(reps):
+        walk = [ref_chain_of_tribits(probe.ref, debruijn_pairs(rng)[k : k + 48]) for k in (0, 16)]
+        walk = [w for w in walk if w is not None]
+        for fi, fn in enumerate(FUNCS):
+            forms = FUNCS[fn]
+            chs = rng.sample(chains[2:], 2) + walk[:1]
+            done = set()
+            for k, (kind, form) in enumerate(forms if full else [forms[(rep + fi) % len(forms)], forms[(rep + fi + 3) % len(forms)]]):
+                if (kind, form) in done:
+                    continue
+                done.add((kind, form))
+                for label, bad in bad_argument_tokens(probe.ref, fn, kind, chs[0], rng, full):
+                    if probe.enough():
+                        return
+                    s = probe.session()
+                    a = s.new(kind, form, bad)
+                    s.call(fn, a)                       # the first call this module state sees
+                    property_steps(s, chs[1])
+                    if len(chs) > 2:
+                        property_steps(s, chs[2])       # a block that walks through all 64 transitions
+                    s.call(fn, a)
+                    s.call(fn, s.new(kind, form, arg_token(chs[0], fn, kind)))
+                    s.call(fn, a)
+                    property_steps(s, chs[0])
+                    ctx.count(f"error-path:{fn}:{label.split('@')[0].rstrip('0123456789-') if label.startswith('value') else label.split('@')[0]}")
+                    res = probe.done("error-path", s)
+                    first = res.lines[1][1] if len(res.lines) > 1 else ""
+                    ctx.count("error-path:first-call-" + ("raised" if "ERR" in first else "accepted"))
+
+
+def ref_chain_of_tribits(ref: Ref, ts):
+    return ref.chain(block_of_tribits(list(ts)))
+
+
 def ref_result_token(ref: Ref, fn, kind, ch):
     """content token of what `fn` returns for the chain's valid argument (None if the reference is silent)"""
     key = "O" if kind == "o" else VALID_ARG[fn]
@@ -1410,6 +1550,7 @@ def history_stage(ctx, ref: Ref):
     k = 2 if ctx.boost > 1 else 1
     thorough = ctx.thorough()
     scripted_histories(ctx, probe, chains, (6 if thorough else 1) * k)
+    error_path_histories(ctx, probe, chains, (2 if thorough else 1) * k)
     for _ in range((1500 if thorough else 40) * k):
         if probe.enough():
             break
@@ -1422,6 +1563,480 @@ def history_stage(ctx, ref: Ref):
     if probe.enough():
         ctx.count("hist:stopped-after-a-dozen-failing-histories")
     probe.flush()
+
+
+# ---- wrong types, argument provenance, flags, ambient state, a child interpreter -----------------------------------
+class _BytesSub(bytes):
+    pass
+
+
+class _BitarraySub(bitarray):
+    pass
+
+
+def wrong_type_arguments(block: str, stream: str):
+    """(label, maker) of objects no callable of Trellis34 is specified for: the call usually raises half-way"""
+    bits = [int(c) for c in stream]
+    out = [
+        ("None", lambda: None), ("int", lambda: 5), ("float", lambda: 3.5), ("str01", lambda: stream), ("str", lambda: "trellis"),
+        ("object", lambda: object()), ("dict", lambda: {0: 1, 1: 0}), ("set", lambda: {0, 1}), ("generator", lambda: (b for b in bits)),
+        ("nested-list", lambda: [[1, 0]] * 98), ("list-with-None", lambda: bits[:50] + [None] + bits[51:]),
+        ("list-with-str", lambda: bits[:97] + ["1"] + bits[98:]), ("list-of-str", lambda: list(stream)),
+        ("array-double", lambda: array("d", [float(b) for b in bits])), ("array-unicode", lambda: array("u", stream)),
+        ("bitarray-for-numbers", lambda: bitarray(stream)), ("bytes-raw", lambda: bitarray(stream + "0000").tobytes()),
+        ("bytearray-raw", lambda: bytearray(bitarray(block).tobytes())), ("memoryview-raw", lambda: memoryview(bitarray(block).tobytes())),
+        ("tuple-of-tuples", lambda: tuple((b, b) for b in bits)), ("bool", lambda: True), ("type", lambda: bitarray),
+    ]
+    try:
+        import numpy as np
+
+        out += [("numpy-float-nan", lambda: np.full(196, np.nan)), ("numpy-2d", lambda: np.zeros((98, 2), dtype=np.uint8)),
+                ("numpy-str", lambda: np.array(list(stream)))]
+    except Exception:  # noqa
+        pass
+    return out
+
+
+def provenance_forms(block: str, stream: str):
+    """objects with the content of a 144-bit block (for encode) / of a 196-bit stream (for decode) that come from somewhere else
+    than `bitarray(str)`: (function, label, maker, strict).  strict = a bitarray or bytes (what the property names): must be
+    accepted; the others are accepted by the code as it is because it only subscripts: they must give the same answer or raise"""
+    octets = bitarray(block).tobytes()
+    bits = [int(c) for c in stream]
+    out = []
+
+    def frombytes():
+        x = bitarray(endian="big")
+        x.frombytes(octets)
+        return x
+
+    def lib_bits():
+        from okdmr.dmrlib.utils.bits_bytes import bytes_to_bits
+
+        return bytes_to_bits(octets)
+
+    def rate34_bits():
+        # the block as another code path of the library hands it to the encoder (Rate34Data.as_bits of an unconfirmed block)
+        from okdmr.dmrlib.etsi.layer2.pdu.rate34_data import Rate34Data
+
+        return Rate34Data(data=octets).as_bits()
+
+    enc = [
+        ("library-bytes_to_bits", lib_bits, True), ("bitarray-buffer-bytes-readonly", lambda: bitarray(buffer=octets), True),
+        ("bitarray-buffer-bytearray", lambda: bitarray(buffer=bytearray(octets)), True),
+        ("bitarray-buffer-memoryview", lambda: bitarray(buffer=memoryview(octets)), True),
+        ("bitarray-slice-of-longer", lambda: bitarray("10101010" + block + "111")[8:152], True),
+        ("bitarray-frombytes", frombytes, True), ("frozenbitarray", lambda: frozenbitarray(block), True),
+        ("bitarray-subclass", lambda: _BitarraySub(block), True), ("bitarray-copy", lambda: bitarray(bitarray(block)), True),
+        ("bitarray-from-list", lambda: bitarray([int(c) for c in block]), True),
+        ("bytes-subclass", lambda: _BytesSub(octets), True), ("bytes-from-bytearray", lambda: bytes(bytearray(octets)), True),
+        ("bytes-from-memoryview", lambda: memoryview(octets + b"xx")[:18].tobytes(), True),
+        ("bytes-join", lambda: b"".join(bytes([o]) for o in octets), True), ("bytes-fromhex", lambda: bytes.fromhex(octets.hex()), True),
+        ("library-Rate34Data.as_bits", rate34_bits, True),
+    ]
+    dec = [
+        ("frozenbitarray", lambda: frozenbitarray(stream), True), ("bitarray-little-endian", lambda: bitarray(stream, endian="little"), True),
+        ("bitarray-slice-of-longer", lambda: bitarray("11" + stream + "0")[2:198], True),
+        ("bitarray-buffer-readonly", lambda: bitarray(buffer=bitarray(stream + "0000").tobytes())[:196], True),
+        ("bitarray-subclass", lambda: _BitarraySub(stream), True), ("bitarray-from-list", lambda: bitarray(bits), True),
+        ("list-of-bool", lambda: [bool(b) for b in bits], False), ("memoryview-01", lambda: memoryview(bytes(bits)), False),
+        ("array-B", lambda: array("B", bits), False), ("array-q", lambda: array("q", bits), False), ("list-of-float", lambda: [float(b) for b in bits], False),
+    ]
+    try:
+        import numpy as np
+
+        def readonly(a):
+            a.setflags(write=False)
+            return a
+
+        dec += [
+            ("numpy-uint8", lambda: np.array(bits, dtype=np.uint8), False), ("numpy-int64", lambda: np.array(bits, dtype=np.int64), False),
+            ("numpy-bool", lambda: np.array(bits, dtype=bool), False), ("numpy-uint8-readonly", lambda: readonly(np.array(bits, dtype=np.uint8)), False),
+            ("numpy-frombuffer", lambda: np.frombuffer(bytes(bits), dtype=np.uint8), False), ("list-of-numpy-int", lambda: [np.int64(b) for b in bits], False),
+            ("numpy-strided-view", lambda: np.array([x for b in bits for x in (b, 1 - b)], dtype=np.uint8)[::2], False),
+        ]
+    except Exception:  # noqa
+        pass
+    for label, mk, strict in enc:
+        out.append(("encode", label, mk, strict))
+    for label, mk, strict in dec:
+        out.append(("decode", label, mk, strict))
+        out.append(("decode_bytes", label, mk, strict))
+    return out
+
+
+def snapshot_arg(x):
+    """content of an argument object, to see whether a call wrote to it"""
+    try:
+        if isinstance(x, bitarray):
+            return ("ba", x.to01(), endian_of(x))
+        if isinstance(x, (bytes, bytearray, list, tuple, array)):
+            return (type(x).__name__, repr(list(x)))
+        if isinstance(x, memoryview):
+            return ("mv", x.tobytes())
+        if type(x).__module__ == "numpy":
+            return ("np", x.tobytes(), str(x.dtype), x.shape)
+    except Exception:  # noqa
+        pass
+    return None
+
+
+def check_property_now(ref: Ref, blocks, bad_stream=None):
+    """the property as stated, on the real code, right now: [(kind, what, expected, actual, input)]"""
+    out = []
+    for block in blocks:
+        fails, _ = oracle_block(block)
+        out += [(k, w, e, a, {"kind": "block", "block": block}) for k, w, e, a in fails]
+    if bad_stream is not None:
+        fails, _, _ = oracle_stream(ref, bad_stream)
+        out += [(k, w, e, a, {"kind": "stream", "stream": bad_stream}) for k, w, e, a in fails]
+    fails, _ = oracle_interleave(list(range(-49, 49)))
+    out += [(k, w, e, a, {"kind": "interleave", "markers": list(range(-49, 49))}) for k, w, e, a in fails]
+    return out
+
+
+ALL_CALLABLES = ["encode", "decode", "decode_bytes", "bits_to_dibits", "dibits_to_bits", "deinterleave", "interleave", "dibits_to_points",
+                 "points_to_dibits", "points_to_tribits", "tribits_to_points", "tribits_to_bits", "bits_to_tribits"]
+
+
+def unreachable_stream(ref: Ref, ch, rng, pos=None):
+    pos = rng.choice([0, 1, 24, 47, 48]) if pos is None else pos
+    pts = list(ch["P"])
+    st = 0 if pos == 0 else ch["TS"][pos - 1]
+    cands = [q for q in range(16) if q not in ref.row(st)]
+    if not cands:
+        return None
+    pts[pos] = rng.choice(cands)
+    return ref.stream_of_points(pts)
+
+
+def wrong_type_stage(ctx, ref: Ref):
+    """every callable x every wrong-type object, as the FIRST call of a re-executed module; then the property (bits and bytes,
+    several blocks incl. one that walks through all 64 transitions, a stream that must still be refused, the interleaver), the
+    call again, the property again.  Failures are replayable as input kind 'after-rejected-call'."""
+    rng = ctx.rng
+    chains = history_pool(ref, rng, 2)
+    if len(chains) < 3:
+        return
+    walk = ref.chain(block_of_tribits(debruijn_pairs(rng)[:48]))
+    reported = 0
+    for fn in ALL_CALLABLES:
+        ch = rng.choice(chains[2:])
+        blocks = [rng.choice(chains)["B"], rand_block(rng)] + ([walk["B"]] if walk else [])
+        bad_stream = unreachable_stream(ref, rng.choice(chains[2:]), rng)
+        for label, mk in wrong_type_arguments(ch["B"], ch["S"]):
+            fresh_module()
+            t = T()
+            first = canon_err(impl_call(t, fn, mk()))
+            fails = check_property_now(ref, blocks, bad_stream)
+            second = canon_err(impl_call(t, fn, mk()))
+            fails += check_property_now(ref, blocks[:1])
+            ctx.case(("after-rejected-call", fn, label))
+            ctx.count(f"wrong-type:{fn}")
+            ctx.count("wrong-type-answer:" + (first if first.startswith("ERR") else "accepted"))
+            if first != second:
+                # same object kind, same content, same module state otherwise: the answer may not depend on the first call
+                fails.append(("result-depends-on-history", f"{fn}({label}) answers {second} after having answered {first}", first, second,
+                              {"kind": "block", "block": blocks[0]}))
+            for kind, what, exp, act, inp in fails[:2]:
+                if reported < 6:
+                    reported += 1
+                    ctx.fail(kind, {"kind": "after-rejected-call", "function": fn, "argument": label, "argument_block": ch["B"], "then": inp},
+                             f"after {fn}({label}) as the first call of a new module state (answer: {first}): {what}", expected=exp, actual=act)
+
+
+def canon_err(x) -> str:
+    return x if is_err(x) else "returned " + type(x).__name__
+
+
+def provenance_stage(ctx, ref: Ref):
+    """the same block / stream in objects of other provenance: same answer, argument untouched"""
+    rng = ctx.rng
+    fresh_module()
+    chains = history_pool(ref, rng, 6)
+    reported = 0
+    for ch in chains:
+        t = T()
+        for fn, label, mk, strict in provenance_forms(ch["B"], ch["S"]):
+            try:
+                obj = mk()
+            except BaseException:  # noqa  (the provenance is not available in this environment)
+                ctx.count("provenance:unavailable:" + label)
+                continue
+            before = snapshot_arg(obj)
+            out = impl_call(t, fn, obj)
+            after = snapshot_arg(obj)
+            want = ("b:" + ch["S"]) if fn == "encode" else ("b:" + ch["B"]) if fn == "decode" else ("o:" + ch["O"])
+            got = canon_obj(out)
+            ctx.case(("provenance", fn, label, ch["B"]))
+            ctx.count(f"provenance:{fn}:{label}:{'refused' if is_err(got) else 'answered'}")
+            bad = None
+            if is_err(got):
+                if strict:
+                    bad = ("provenance-refused", f"{fn} refuses a {label} object holding a valid {'block' if fn == 'encode' else 'stream'}")
+            elif got != want:
+                bad = ("provenance-wrong-result", f"{fn} of a {label} object differs from {fn} of bitarray(str) with the same content")
+            if bad is None and before != after:
+                bad = ("argument-changed", f"{fn} wrote to its argument (a {label} object)")
+                want, got = str(before)[:200], str(after)[:200]
+            if bad and reported < 6:
+                reported += 1
+                ctx.fail(bad[0], {"kind": "provenance", "function": fn, "form": label, "block": ch["B"]}, bad[1], expected=want, actual=got)
+    # as_bytes given as something else than a bool, positionally and by keyword
+    ch = chains[-1]
+    t = T()
+    flags = [(1, True), (0, False), (None, False), ("yes", True), ("", False), ([0], True), ([], False), (2.0, True)]
+    for flag, as_bytes in flags:
+        for how in ("positional", "keyword"):
+            out = call(t.decode, bitarray(ch["S"]), flag) if how == "positional" else call(t.decode, bitarray(ch["S"]), as_bytes=flag)
+            want = ("o:" + ch["O"]) if as_bytes else ("b:" + ch["B"])
+            ctx.case(("as_bytes", repr(flag), how))
+            ctx.count("provenance:as_bytes-flag")
+            if canon_obj(out) != want and reported < 6:
+                reported += 1
+                ctx.fail("round-trip-bytes" if as_bytes else "round-trip", {"kind": "flag", "block": ch["B"], "as_bytes": repr(flag), "how": how},
+                         f"decode(encode(block), as_bytes={flag!r}) ({how})", expected=want, actual=canon_obj(out))
+
+
+class _Failing:
+    encoding = "utf-8"
+
+    def __init__(self, exc):
+        self.exc = exc
+
+    def write(self, *_a):
+        raise self.exc
+
+    flush = writelines = write
+
+
+AMBIENT = ["stdout-oserror", "stdout-closed", "stderr-oserror", "root-logger-debug", "random-reseeded", "warnings-error", "recursion-tight"]
+
+
+def ambient(name):
+    """context manager: one ambient interpreter / process condition"""
+    import contextlib
+    import io
+    import logging
+    import random
+    import warnings
+
+    @contextlib.contextmanager
+    def cm():
+        saved = (sys.stdout, sys.stderr, logging.root.level, list(logging.root.handlers), logging.root.manager.disable, random.getstate(),
+                 sys.getrecursionlimit())
+        w = warnings.catch_warnings()
+        w.__enter__()
+        try:
+            if name == "stdout-oserror":
+                sys.stdout = _Failing(BrokenPipeError(32, "Broken pipe"))
+            elif name == "stdout-closed":
+                sys.stdout = _Failing(ValueError("I/O operation on closed file."))
+            elif name == "stderr-oserror":
+                sys.stderr = _Failing(OSError(28, "No space left on device"))
+            elif name == "root-logger-debug":
+                logging.disable(logging.NOTSET)
+                logging.root.setLevel(logging.DEBUG)
+                logging.root.handlers = [logging.StreamHandler(io.StringIO())]
+            elif name == "random-reseeded":
+                random.seed(20260926)
+            elif name == "warnings-error":
+                warnings.simplefilter("error")
+            elif name == "recursion-tight":
+                # room for the harness' own frames plus a shallow call tree: Trellis34 does not recurse
+                import inspect
+
+                sys.setrecursionlimit(len(inspect.stack()) + 60)
+            yield
+        finally:
+            w.__exit__(None, None, None)
+            sys.setrecursionlimit(saved[6])
+            random.setstate(saved[5])
+            logging.disable(saved[4])
+            logging.root.handlers = saved[3]
+            logging.root.setLevel(saved[2])
+            sys.stdout, sys.stderr = saved[0], saved[1]
+
+    return cm()
+
+
+def ambient_stage(ctx, ref: Ref):
+    """a fixed small sample of the property under ambient conditions the library should not depend on"""
+    rng = ctx.rng
+    fresh_module()
+    chains = history_pool(ref, rng, 8)
+    reported = 0
+    for name in AMBIENT:
+        for ch in chains[2:]:
+            bad = unreachable_stream(ref, ch, rng)
+            with ambient(name):
+                if name == "random-reseeded":
+                    import random
+
+                    random.seed(1)
+                fails = check_property_now(ref, [ch["B"]], bad)
+            ctx.case(("ambient", name, ch["B"]))
+            ctx.count("ambient:" + name)
+            for kind, what, exp, act, inp in fails[:1]:
+                if reported < 4:
+                    reported += 1
+                    ctx.fail(kind, dict(inp, ambient=name), f"under the ambient condition {name}: {what}", expected=exp, actual=act)
+
+
+CHILD_CODE = r"""
+import json, sys
+sys.path[:0] = %r
+import c10
+spec = json.load(open(sys.argv[1]))
+res = {"optimize": sys.flags.optimize, "first": [], "blocks": []}
+t = c10.T()
+from array import array
+# the first calls this process makes on Trellis34 are refused ones (none of them relies on an assert)
+for fn, typecode, vals in spec["first"]:
+    res["first"].append(c10.canon_err(c10.impl_call(t, fn, array(typecode, vals))))
+for block in spec["blocks"]:
+    fails, obs = c10.oracle_block(block)
+    res["blocks"].append({"fails": [list(f) for f in fails], "encode": obs.get("encode")})
+fails, obs = c10.oracle_interleave(list(range(-49, 49)))
+res["interleave"] = [list(f) for f in fails]
+json.dump(res, open(sys.argv[2], "w"))
+"""
+
+
+def child_start(ctx, ref: Ref, blocks=None):
+    """one `python -O` process (asserts stripped; a fresh interpreter whose first calls on the class fail): the round trip only —
+    the rejection of unreachable points is an `assert` and is assumed to run with assertions enabled"""
+    if blocks is None:
+        rng = ctx.rng
+        blocks = [b for _, b in structured_blocks(rng, 1)[::9]][:220] + [rand_block(rng) for _ in range(80)]
+    first = [["tribits_to_points", "B", [3, 5, 9, 2]], ["points_to_dibits", "B", [1, 16]], ["dibits_to_points", "b", [3, 0]],
+             ["dibits_to_bits", "b", [1, 2]], ["interleave", "b", [3, 1, -1]], ["deinterleave", "b", [3] * 97], ["points_to_tribits", "B", [0, 1]]]
+    d = tempfile.mkdtemp(prefix="c10child")
+    jp, rp = os.path.join(d, "spec.json"), os.path.join(d, "res.json")
+    with open(jp, "w") as f:
+        json.dump({"first": first, "blocks": blocks}, f)
+    here = os.path.dirname(os.path.abspath(__file__))
+    code = CHILD_CODE % ([os.path.dirname(here), here],)
+    p = subprocess.Popen([sys.executable, "-O", "-c", code, jp, rp], stdin=subprocess.DEVNULL, stdout=subprocess.PIPE, stderr=subprocess.PIPE)
+    return p, rp, d, blocks
+
+
+def child_finish(ctx, handle):
+    import shutil
+
+    p, rp, d, blocks = handle
+    try:
+        try:
+            _, err = p.communicate(timeout=300)
+        except Exception:  # noqa
+            p.kill()
+            _, err = p.communicate()
+        try:
+            res = json.load(open(rp))
+        except Exception as e:  # noqa
+            ctx.notes.append(f"child interpreter gave no result (rc={p.returncode}): {e}: {(err or b'')[-300:]!r}")
+            ctx.fail("child-interpreter", {"kind": "child", "interpreter": "python -O"}, "Trellis34 could not be exercised in a child `python -O` process")
+            return
+    finally:
+        shutil.rmtree(d, ignore_errors=True)
+    ctx.count("child:python -O optimize=%s" % res.get("optimize"))
+    ctx.count("child:first-calls-refused", sum(1 for x in res["first"] if x.startswith("ERR")))
+    t = T()
+    reported = 0
+    for block, r in zip(blocks, res["blocks"]):
+        ctx.case(("child", block))
+        ctx.count("child:blocks")
+        mine = cbits(call(t.encode, bitarray(block)))
+        fails = [tuple(f) for f in r["fails"]]
+        if not fails and r["encode"] != mine:
+            fails = [("length" if len(r["encode"] or "") != 196 else "round-trip", "encode in a `python -O` child whose first calls were refused differs from encode here", mine, r["encode"])]
+        for kind, what, exp, act in fails[:1]:
+            if reported < 4:
+                reported += 1
+                ctx.fail(kind, {"kind": "block", "block": block, "interpreter": "python -O, first calls refused"}, f"in a child `python -O` process: {what}", expected=exp, actual=act)
+    for f in res.get("interleave", [])[:1]:
+        ctx.fail(f[0], {"kind": "interleave", "markers": list(range(-49, 49)), "interpreter": "python -O"}, f"in a child `python -O` process: {f[1]}", expected=f[2], actual=f[3])
+
+
+def scale_stage(ctx, ref: Ref):
+    """far more distinct blocks than a few thousand in ONE module state (what a bounded cache / table of seen inputs would need),
+    refused calls in between, every stream and block handed out kept and read again at the end"""
+    rng = ctx.rng
+    fresh_module()
+    t = T()
+    n = 70000 if ctx.thorough() else 9000  # a fixed share: not multiplied by a boosted search
+    kept = []
+    reported = 0
+    bad_every = 331
+    last_bad = None
+    for i in range(n):
+        block = rand_block(rng) if i % 7 else format(i, "0144b")  # low-entropy blocks (a counter) among the random ones
+        if i % bad_every == 5:
+            ts = [rng.randrange(1, 8), rng.randrange(1, 8), rng.choice(FOREIGN_TRIBITS)]
+            strm = unreachable_stream(ref, ref.chain(block), rng) or "0"
+            call(t.tribits_to_points, array("B", ts))
+            call(t.decode, bitarray(strm))
+            last_bad = (ts, strm)
+            ctx.count("scale:refused-calls-in-between", 2)
+        enc = call(t.encode, bitarray(block))
+        dec = enc if is_err(enc) else call(t.decode, enc)
+        if is_err(dec) or len(enc) != 196 or bits_str(dec) != block:
+            if reported < 3:
+                reported += 1
+                done = False
+                if last_bad is not None:
+                    # the same as a history of its own, from a new module state: the refused calls, then this block
+                    steps = [["new", "n", "aB", enc_val("n", last_bad[0])], ["call", "tribits_to_points", 0], ["new", "b", "ba", last_bad[1]],
+                             ["call", "decode", 2], ["new", "b", "ba", block], ["call", "encode", 4], ["call", "decode", 5]]
+                    res = run_history(Ref(), steps)
+                    fresh_module()
+                    t = T()
+                    if res.bad:
+                        b = res.bad[0]
+                        ctx.fail(b["kind"], {"kind": "history", "steps": steps, "generator": "scale", "function": b["fn"]}, b["what"],
+                                 expected=b["expected"], actual=b["actual"])
+                        done = True
+                if not done:
+                    ctx.fail("round-trip", {"kind": "block", "block": block, "generator": f"scale: block #{i} in one module state"},
+                             f"decode(encode(block)) is not the block (block #{i} of a long run in one module state; a replay of the block "
+                             "alone starts from a new module state)", expected=block, actual=cbits(dec))
+            continue
+        kept.append((block, enc, bits_str(enc), dec, block))
+    ctx.count("scale:blocks", n)
+    for i, (block, enc, es, dec, ds) in enumerate(kept):
+        if bits_str(enc) != es or bits_str(dec) != ds:
+            ctx.fail("held-object-changed", {"kind": "block", "block": block, "generator": f"scale: objects of block #{i} read again after {n} blocks"},
+                     "a stream / block handed out earlier changed while later blocks were processed", expected=es + " / " + ds,
+                     actual=bits_str(enc) + " / " + bits_str(dec))
+            break
+    ctx.count("scale:kept-objects-read-again", 2 * len(kept))
+
+
+def transformed_streams(ref: Ref, ch, rng):
+    """(label, stream): specific transforms of a valid encoder output — what a receiver with one convention wrong would see"""
+    s, dd, di, pts = ch["S"], ch["DD"], ch["DI"], ch["P"]
+    inv = {"0": "1", "1": "0"}
+    M = ref.M
+
+    def of_dibits(d):
+        try:
+            return "".join(str(b) for x in d for b in ref.Dinv[x])
+        except KeyError:
+            return None
+
+    out = [
+        ("bits-reversed", s[::-1]), ("bits-inverted", "".join(inv[c] for c in s)), ("dibit-bits-swapped", "".join(s[i + 1] + s[i] for i in range(0, 196, 2))),
+        ("rotated-by-a-dibit", s[2:] + s[:2]), ("rotated-by-a-bit", s[1:] + s[:1]), ("halves-swapped", s[98:] + s[:98]),
+        ("octets-bit-reversed", "".join(s[k : k + 8][::-1] for k in range(0, 196, 8))), ("dibits-reversed", "".join(s[i : i + 2] for i in range(194, -2, -2))),
+        ("not-interleaved", of_dibits(dd)), ("interleaved-twice", of_dibits([di[m] for m in M])),
+        ("deinterleaved-instead", of_dibits([dd[M.index(i)] for i in range(98)]) if sorted(M) == list(range(98)) else None),
+        ("dibits-negated", of_dibits([-x for x in di])), ("points-mirrored", ref.stream_of_points([15 - q for q in pts])),
+        ("points-plus-8", ref.stream_of_points([(q + 8) % 16 for q in pts])), ("points-reversed", ref.stream_of_points(pts[::-1])),
+        ("points-from-state-s+1", ref.stream_of_points([ref.TR[(((0 if i == 0 else ch["TS"][i - 1]) + 1) % 8) * 8 + ch["TS"][i]] for i in range(49)])),
+        ("points-shifted-by-one", ref.stream_of_points(pts[1:] + pts[:1])), ("point-pairs-swapped", ref.stream_of_points([pts[i ^ 1] if (i ^ 1) < 49 else pts[i] for i in range(49)])),
+        ("xor-with-another-codeword", None),
+    ]
+    return [(k, v) for k, v in out if v is not None and len(v) == 196 and v != s]
 
 
 # ---- run -----------------------------------------------------------------------------------------
@@ -1464,9 +2079,11 @@ def run(ctx):
     ctx.assumptions += [
         "bit blocks are passed as big-endian bitarrays (bitarray's default, what the library's own callers pass); "
         "a little-endian bitarray argument is encoded with every 3-bit group reversed (theorem little_endian_argument) and is outside the property",
-        "Python runs with assertions enabled (no -O): the rejection path is an assert",
+        "Python runs with assertions enabled (no -O): the rejection path is an assert (the child `python -O` process checks the round trip only)",
+        "single-threaded use: the property does not mention concurrency, two threads inside one decode are not exercised",
     ]
     corr = Corr(ctx)
+    child = child_start(ctx, ref)  # works while this process does
 
     # ---------------- corpus of captured streams
     for s in CORPUS_STREAMS:
@@ -1584,6 +2201,18 @@ def run(ctx):
                         continue
                     ctx.count(f"point-replaced:state{st}:{'in-row' if q in ref.row(st) else 'not-in-row'}")
                     do_stream(f"point-replaced-{where}", s, {"block": block, "position": i, "state": st, "point": q})
+    # specific transforms of valid encoder outputs (one convention wrong at the sender / in the channel)
+    for _ in range(min(ctx.budget(12, 300), 600)):
+        ch = ref.chain(rand_block(rng))
+        if ch is None:
+            break
+        for label, strm in transformed_streams(ref, ch, rng):
+            ctx.count(f"stream-transform:{label}")
+            do_stream("transformed", strm, {"block": ch["B"], "transform": label})
+        other = ref.chain(rand_block(rng))
+        if other is not None:
+            # the XOR of two code words (the code is not linear: as a rule not a code word)
+            do_stream("transformed", "".join("1" if a != b else "0" for a, b in zip(ch["S"], other["S"])), {"block": ch["B"], "transform": "xor-of-two-codewords"})
     # random 196-bit strings (almost always rejected early) and random valid paths with a non-zero flush
     for _ in range(min(ctx.budget(100, 3000), 10000)):
         do_stream("random-stream", format(rng.getrandbits(196), "0196b"), {})
@@ -1616,8 +2245,15 @@ def run(ctx):
         stage_correspondence(ctx, corr, encoded)
     corr.flush()
 
+    # ---------------- scale, provenance of the argument objects, ambient state (one module state, before the histories)
+    scale_stage(ctx, ref)
+    provenance_stage(ctx, ref)
+    ambient_stage(ctx, ref)
+
     # ---------------- histories: arguments and results as kept objects (last: each history re-executes the module)
     history_stage(ctx, Ref())
+    wrong_type_stage(ctx, Ref())
+    child_finish(ctx, child)
     ctx.exhaustive = False
 
 
@@ -1774,7 +2410,21 @@ def replay(obj):
     fails = []
     if inp.get("kind") == "block":
         block = inp["block"]
-        fails, obs = oracle_block(block)
+        if inp.get("interpreter"):
+            import common
+
+            c = common.Ctx(PROP, "quick", 0)
+            child_finish(c, child_start(c, Ref(), blocks=[block]))
+            print("in a child interpreter (", inp["interpreter"], "):", "fails" if c.failures else "holds")
+            for x in c.failures:
+                print(f"STILL FAILS [{x['kind']}] {x['what']}: expected {x['expected']} actual {x['actual']}")
+            if c.failures:
+                return 1
+        if inp.get("ambient"):
+            with ambient(inp["ambient"]):
+                fails, obs = oracle_block(block)
+        else:
+            fails, obs = oracle_block(block)
         lines = [f"tr.encode {block}"]
         if "encode" in obs and not is_err(obs["encode"]):
             lines += [f"tr.decode {obs['encode']}", f"tr.decode_bytes {obs['encode']}"]
@@ -1805,6 +2455,48 @@ def replay(obj):
         for (line, out), m in zip(res.lines, ms):
             print(f"  {line[:60]}{'…' if len(line) > 60 else ''}\n      implementation: {out}\n      model:          {m}")
         fails = [(b["kind"], b["what"], b["expected"], b["actual"]) for b in res.bad]
+    elif inp.get("kind") == "after-rejected-call":
+        ref = Ref()
+        blk = inp.get("argument_block") or "0" * 144
+        chn = ref.chain(blk)
+        mk = dict(wrong_type_arguments(blk, chn["S"] if chn else "0" * 196)).get(inp["argument"])
+        fresh_module()
+        first = canon_err(impl_call(T(), inp["function"], mk())) if mk else "?"
+        print(f"new module state; first call {inp['function']}({inp['argument']}) -> {first}; then:", inp["then"])
+        then = inp["then"]
+        if then.get("kind") == "block":
+            f2, obs = oracle_block(then["block"])
+            for k, v in obs.items():
+                print(f"implementation {k}: {v}")
+        elif then.get("kind") == "stream":
+            f2, out, _ = oracle_stream(ref, then["stream"])
+            print("implementation decode:", out)
+        else:
+            f2, _ = oracle_interleave(then["markers"])
+        fails = list(f2)
+    elif inp.get("kind") == "provenance":
+        ref = Ref()
+        ch = ref.chain(inp["block"])
+        t = T()
+        for fn, label, mk, strict in provenance_forms(ch["B"], ch["S"]):
+            if fn == inp["function"] and label == inp["form"]:
+                obj = mk()
+                before = snapshot_arg(obj)
+                got = canon_obj(impl_call(t, fn, obj))
+                want = ("b:" + ch["S"]) if fn == "encode" else ("b:" + ch["B"]) if fn == "decode" else ("o:" + ch["O"])
+                print(f"{fn}({label} object): {got}\nexpected: {want}")
+                if (is_err(got) and strict) or (not is_err(got) and got != want) or before != snapshot_arg(obj):
+                    fails.append((f.get("kind"), f.get("what"), want, got))
+    elif inp.get("kind") == "flag":
+        t = T()
+        ch = Ref().chain(inp["block"])
+        for flag, as_bytes in [(1, True), (0, False), (None, False), ("yes", True), ("", False), ([0], True), ([], False), (2.0, True)]:
+            if repr(flag) == inp["as_bytes"]:
+                out = call(t.decode, bitarray(ch["S"]), flag) if inp["how"] == "positional" else call(t.decode, bitarray(ch["S"]), as_bytes=flag)
+                want = ("o:" + ch["O"]) if as_bytes else ("b:" + ch["B"])
+                print("implementation:", canon_obj(out), "expected:", want)
+                if canon_obj(out) != want:
+                    fails.append((f.get("kind"), f.get("what"), want, canon_obj(out)))
     elif inp.get("kind") == "interleave":
         fails, obs = oracle_interleave(inp["markers"])
         print("markers:", inp["markers"])
